@@ -303,11 +303,27 @@ func (p *lockPicture) selfDeadlock(g *rel) bool {
 		if o.ID == g.ID {
 			continue
 		}
-		if !o.lockFree() {
+		if !o.lockFree() && !o.stalledWriter() {
 			return false
 		}
 	}
 	return true
+}
+
+// stalledWriter: a send of this transport parked inside the scripted stream's
+// Write, which only the script releases (and it does so only after the call
+// under observation has returned).
+func (r *rel) stalledWriter() bool {
+	return r.in("send") && strings.HasPrefix(r.State, "chan receive") && strings.Contains(r.Text, "rig.(*ScriptTransport).Write(")
+}
+
+func (p *lockPicture) hasStalledWriter() bool {
+	for i := range p.related {
+		if p.related[i].stalledWriter() {
+			return true
+		}
+	}
+	return false
 }
 
 // noReceiver reports whether no goroutine can ever take the token off
